@@ -56,6 +56,15 @@ def make_cases(ctx, rng):
     for lvl, sz in ((16, 131072), (19, 131072), (19, 200000), (22, 300000), (3, 131072)):
         add("longlen", sz, "compress2", {"level": lvl, "checksum": 1, "blockSplitter": 1})
     add("rep3", 20000, "compress2", {"strategy": 7, "level": 3, "windowLog": 10})
+    # ... and through the sub-block splitter of ZSTD_c_targetCBlockSize (literal counts of sub-blocks)
+    for lvl, sz, tcb in ((3, 131072, 1340), (1, 200000, 4000), (7, 131072, 2000), (19, 131072, 1340)):
+        add("longlen", sz, "compress2", {"level": lvl, "targetCBlockSize": tcb, "minMatch": 7 if lvl == 1 else 4})
+    # blocks that are a run of one byte except for a deviation inside their last 32 bytes (RLE-block detection)
+    for k, lvl in ((40, 1), (1000, 3), (65536, 5), (131072, 19), (131072 + 17, 1), (3, 13)):
+        add("nearrle", 131072 + k, "compress2", {"level": lvl})
+    # Huffman table re-use: the largest literal of a later block has no code in the previous block's table
+    for lvl in (1, 2, 3, 4, 5, 7):
+        add("hufrepeat", 2 * 131072 + 5000, "compress2", {"level": lvl})
     for _ in range(n_small):
         add(rng.choice(codec.KINDS), rng.choice(codec.SIZES_SMALL))
     for _ in range(n_med):
@@ -147,7 +156,7 @@ def header_tie(ctx, cd):
     exe = core.build_harness("c01_hdr", ["c01_hdr.c"], variant="o1", extra_flags=["-w"])
     rng = random.Random(ctx.seed + 7)
     vec = []
-    dids = [0, 1, 255, 256, 65535, 65536, 2**32 - 1]
+    dids = [0, 1, 255, 256, 257, 65535, 65536, 65537, 65791, 65792, 2**24, 2**32 - 1]
     for wl in range(10, 32):
         pls = [0, 1, 255, 256, 257, 65791, 65792, 65793, 2**wl - 1, 2**wl, 2**wl + 1, 2**32 - 2, 2**32 - 1, 2**32, 2**64 - 2]
         for fl in range(16):
